@@ -61,7 +61,7 @@ QUICK_CONFIGS = ["default", "raise+error", "mixed+call"]
 
 def bounds(tier):
     return {"tier": tier, "events": len(Gl.EVENTS),
-            "histories": "depth 2 under 3 configurations, depth 1 under all 12" if tier == "quick" else "depth 3 under the default configuration, depth 2 under all 13",
+            "histories": "depth 2 under 3 configurations, depth 1 under all 13" if tier == "quick" else "depth 3 under the default configuration, depth 2 under all 13",
             "schedules": "all schedules with <= 1 preemption, 2 threads, line granularity, 14 harness pairs; <= 2 preemptions at function-entry granularity for 5 small operator-form harnesses (line granularity in thorough); fresh-process (lazy import) variant for 3 pairs" if tier == "quick"
             else "<= 2 preemptions at line granularity for object-backend pairs (obj_inplace_shared: <= 1 at line granularity and <= 2 at function-entry granularity; two preemptions at line granularity would be ~1.3e6 schedules there), <= 1 otherwise, 2 and 3 threads; fresh-process variant for 6 pairs"}
 
